@@ -14,7 +14,7 @@ ASSUMPTIONS = ['an image shows every store completed in program order by every t
 RULE = ('scenarios of 6-40 operations (writers with queue capacities 128..4096 created / renamed / destroyed, events of 8..120 payload bytes through 6 call sites so that sources are registered, metadata buffers grow and queues wrap and get replaced, '
         'consume, reconsumeMetadata, setClockSync, consume with a writer logging at the k-th point inside it); per scenario the points are counted and 6 (thorough: 25) of them chosen, incl. points inside source registration, buffer growth, '
         'commit, wrap and consume; each image goes through the real brecovery; oracle on its output together with what consume had written: whole entries, every event printable (its source and a clock sync precede it in the recovered log), '
-        'every completed log call present, nothing that was never committed, per recovered queue block increasing sequence numbers per writer; the model recover(image) must equal the tool\'s output byte for byte. non-trivial = image with at least one completed unconsumed event')
+        'every completed log call present, nothing that was never committed, per recovered queue block increasing sequence numbers per writer; the model recover(image) must equal the tool\'s output byte for byte; at points BETWEEN two operations the blocks the tool wrote (from its own log) must equal, as a multiset, the clock-sync buffer, the sources buffer and the per-channel unreleased bytes of the Coq session model after the same operations (state tie for C08_session_state_recovered; stats: state_tie_images). non-trivial = image with at least one completed unconsumed event')
 
 def gen_scenario(rng):
     ops, writers, used_sites, cap = [], {}, set(), {}
